@@ -9,6 +9,12 @@ CLAIMS = {
     "C03": ("exception-escape rule with benign-call table, except-ladder shadowing via the exception hierarchy, call-site attribution/traceback/gating rules over every add_exception site, CFG must-pass-through (zero-iteration loop edges) for record-before-skip",
             "Decides that no exception leaves the execution loop or the observer loop, that no handler is shadowed, that every add_exception site records against the failing component (or a registry point of it) with a traceback formatted in the same handler, that skips are recorded only under store_skips, and that every error arm that turns into a skip records on every path. Value equality of unaffected components is not decided.",
             "DESIGN.md §3 C03"),
+    "C04": ("declared-superset-of-used sweep over all registered datasources and factories (resolved symbols), set-type inference with ordered/commutative sink classification, shape and sibling-agreement rules for the sub-graph decomposition and the three drivers",
+            "Decides necessary conditions of schedule independence: every shipped datasource/factory and the engine itself read the broker only at declared dependencies; first-match picks iterate ordered lists; get_subgraphs has the closure/no-loss/no-duplication shape; single-pass, incremental and pooled drivers agree; no hash-ordered iteration feeds an ordered result in the order-critical core. Confluence of whole evaluations is NOT decided.",
+            "DESIGN.md §3 C04"),
+    "C05": ("def-use and ordering rules on the registry-point selection loop, registration/ignore wiring order, sibling agreement of every process(), factory registration tables, flag-propagation table agreement",
+            "Decides that a registry point scans its ordered implementation list latest-first and returns the first one present (else SkipComponent), that registration is append-only, that earlier handlers of a context are told to ignore it before the new one is recorded, that the ignore check precedes invoke in every process(), that every factory declares its context as a dependency, and that all registry-point flags are copied to implementation and delegate. Arbitrary third-party registration histories are not decided.",
+            "DESIGN.md §3 C05"),
 }
 _PENDING = "check under construction in this session; will be claimed (clause-level static rules per DESIGN.md) or declared not applicable with the reason"
 NOT_APPLICABLE = dict(("C%02d" % i, _PENDING) for i in range(1, 21) if "C%02d" % i not in CLAIMS)
